@@ -88,7 +88,7 @@ func dirHashes(dir string) map[string]string {
 
 func TestC11(t *testing.T) {
 	st := statsFor("C11")
-	st.Rule = "a database is built by a generated history under a generated configuration and closed; then a generated fault set is applied from outside: remove object files, add valid object files under fresh uuids (not conflicting on unique paths), remove index entries consistently from schema.json, remove schema.json, make one index internally inconsistent (drop a tuple from one field index only; swap two tuples of different value (the first and the last, or two neighbours - mostly the last two); index one object twice and its neighbour not at all), plus two harmless shapes: a backup copy '<uuid><ext>.bak' next to an object file, an object file replaced by a symbolic link to a regular file. Objects may carry value-changing Transform hooks (after Repair the index must reflect what the files hold). Added files are half of the time written the way another tool would (indented, extra unknown member, half of those partial documents that leave members out) so that a Repair that rewrites files changes bytes; Repair is given a template object with non-zero fields (only its type may matter); in a third of the divergent cases the first call is a bulk import (must report corruption and store nothing); after Repair the objects whose files were lost are stored again exactly as they were and must be written; caller-style uuids (upper-case, non-v4) are used. Oracle: expected divergence computed from sets (uuid-named files vs. object-ids in schema.json). First load and Control report ErrIndexCorrupted iff the sets differ (some error if an index is internally inconsistent; nil on a healthy database of every configuration); Repair returns nil, leaves every object file byte-identical and creates/removes none; afterwards Control is nil and Count, All, Get and a search sweep (every operator x stored values and neighbours on every indexed path) equal predicates evaluated on the decoded file contents; after Close and reopen Control is still nil. Removed schema: Create reports corruption iff files exist, then Repair as above. Non-trivial: fault set with >= 2 kinds, or a cancelling pair, or a boundary shape (all files gone, only extra files, empty collection). Distinct by program hash."
+	st.Rule = "a database is built by a generated history under a generated configuration and closed; then a generated fault set is applied from outside: remove object files, add valid object files under fresh uuids (not conflicting on unique paths), remove index entries consistently from schema.json, remove schema.json, make one index internally inconsistent (drop a tuple from one field index only; swap two tuples of different value (the first and the last, or two neighbours - mostly the last two); index one object twice and its neighbour not at all), plus two harmless shapes: a backup copy '<uuid><ext>.bak' next to an object file, an object file replaced by a symbolic link to a regular file. Objects may carry value-changing Transform hooks (after Repair the index must reflect what the files hold). Added files are half of the time written the way another tool would (indented, extra unknown member, half of those partial documents that leave members out) so that a Repair that rewrites files changes bytes; a second, untouched collection is loaded on the same handle and Control is asked six times (it must report the damaged one every time); added files may hold values their own Validate refuses (Repair indexes, it does not judge); Repair is given a template object with non-zero fields (only its type may matter); in a third of the divergent cases the first call is a bulk import (must report corruption and store nothing); after Repair the objects whose files were lost are stored again exactly as they were and must be written; caller-style uuids (upper-case, non-v4) are used. Oracle: expected divergence computed from sets (uuid-named files vs. object-ids in schema.json). First load and Control report ErrIndexCorrupted iff the sets differ (some error if an index is internally inconsistent; nil on a healthy database of every configuration); Repair returns nil, leaves every object file byte-identical and creates/removes none; afterwards Control is nil and Count, All, Get and a search sweep (every operator x stored values and neighbours on every indexed path) equal predicates evaluated on the decoded file contents; after Close and reopen Control is still nil. Removed schema: Create reports corruption iff files exist, then Repair as above. Non-trivial: fault set with >= 2 kinds, or a cancelling pair, or a boundary shape (all files gone, only extra files, empty collection). Distinct by program hash."
 	st.Assumptions = baseAssumptions()
 	prof := &Profile{
 		Property: "C11", MaxOps: pick(8, 18),
@@ -106,10 +106,7 @@ func TestC11(t *testing.T) {
 		for i := 0; i < n; i++ {
 			f := Fault{K: pickU(g, kinds, "faultkind"), Ref: g.uni(64, "fref")}
 			if f.K == "addfile" {
-				f.D = g.Doc()
-				if f.D.H.RejectS != "" || f.D.H.RejectLen != 0 {
-					f.D.H = Hooks{} // files hold valid objects
-				}
+				f.D = g.Doc() // (may hold values its own Validate refuses: Repair indexes files, it does not judge them)
 				f.Seed = uint64(1000 + g.uni(1000, "fseed"))
 			}
 			faults = append(faults, f)
@@ -127,6 +124,16 @@ func caseC11(t TB, prog *Program) {
 	defer e.Teardown()
 	e.Run()
 	orig := e.m
+	// a second, healthy collection on the same handle: its verdict must not hide the first one's
+	nOther := 1 + int(prog.Hash()%3)
+	if err := e.db.Create(&Other{}, sod.DefaultSchema); err != nil {
+		e.failf("Create second collection: %v", err)
+	}
+	for i := 0; i < nOther; i++ {
+		if err := e.db.InsertOrUpdate(&Other{K: int64(i), V: "v"}); err != nil {
+			e.failf("insert into the second collection: %v", err)
+		}
+	}
 	if err := e.db.Close(); err != nil {
 		e.failf("Close: %v", err)
 	}
@@ -503,12 +510,18 @@ func caseC11(t TB, prog *Program) {
 				e.failf("healthy database (files == index, %d objects): first load returned %v", len(fileSet), err)
 			}
 		}
-		cerr := db.Control()
-		if divergent && !sod.IsIndexCorrupted(cerr) {
-			e.failf("files and index differ as sets but Control returned %v", cerr)
+		// both collections are loaded; Control is asked several times (it visits them in map order)
+		if n, oerr := db.Count(&Other{}); oerr != nil || n != nOther {
+			e.failf("second (untouched) collection: Count=%d err=%v, want %d", n, oerr, nOther)
 		}
-		if !divergent && cerr != nil {
-			e.failf("healthy database: Control returned %v", cerr)
+		for round := 0; round < 6; round++ {
+			cerr := db.Control()
+			if divergent && !sod.IsIndexCorrupted(cerr) {
+				e.failf("files and index of one of two loaded collections differ as sets but Control (call %d) returned %v", round+1, cerr)
+			}
+			if !divergent && cerr != nil {
+				e.failf("healthy database: Control returned %v", cerr)
+			}
 		}
 	}
 
